@@ -227,6 +227,8 @@ def apply_hist(state, var, hist=None):
                     kind = "R"
                 elif name == "Interpolate":
                     s1 = W.setup(W.build, W.sys_from_tla(op["s1"]), **bkw)
+                    if (var["h"] >> 4) & 1:                          # the same R-vectors need not be stored in the same order
+                        info["shuffled_R"] = W.shuffle_R(s1)
                     upg = (1, 1, 0, -1)[(var["h"] >> 2) & 3]
                     before0, before1 = W.project(real)[0], W.project(s1)[0]
                     itp = W.under_test(SystemInterpolator, real, s1, use_pointgroup=upg) if upg != 1 else W.under_test(SystemInterpolator, real, s1)
